@@ -53,8 +53,8 @@ theorem parseIndirectObject_spells (env : Env R) (hd : env.decrypt = none) (v : 
     (hid : id ≤ 18446744073709551615) (hgen : gen ≤ 18446744073709551615) (hg3 : Gap g3) (hg4 : Gap g4)
     (h : Suffix buf pos (g0 ++ a ++ g1 ++ b ++ g2 ++ kwObj ++ g3 ++ txt ++ g4 ++ kwEndobj ++ rest))
     (hb3 : Bnd (g3 ++ txt)) (hb4 : needsBnd v = true → g4 ≠ []) (hbnd : Bnd rest)
-    (hfuel : need v ≤ fuel) (hdepth : vdepth v ≤ maxDepth) :
-    parseIndirectObject env buf fuel pos Flags.any =
+    (hfuel : need v ≤ fuel) (hdepth : vdepth v ≤ maxDepth) (flags : Nat) (hfl : flags &&& flagOf v ≠ 0) :
+    parseIndirectObject env buf fuel pos flags =
       .ok (((id, gen), v), pos + (g0 ++ a ++ g1 ++ b ++ g2 ++ kwObj ++ g3 ++ txt ++ g4 ++ kwEndobj).length) := by
   have hne : g3 ++ txt ≠ [] := by simp [spells_ne_nil env.parseReal v txt hsp]
   have hhead := parseObjHeader_spec g0 a g1 b g2 (g3 ++ txt ++ g4 ++ kwEndobj ++ rest) id gen pos hg0 ha hb hg1 hg1ne hg2
@@ -65,7 +65,7 @@ theorem parseIndirectObject_spells (env : Env R) (hd : env.decrypt = none) (v : 
   have h3 : Suffix buf (pos + (g0 ++ a ++ g1 ++ b ++ g2 ++ kwObj).length + g3.length + txt.length) (g4 ++ kwEndobj ++ rest) := by
     have := Suffix.drop (a := g3 ++ txt) (by simpa using h2)
     simpa [Nat.add_assoc] using this
-  have hv := parseCtx_spells env hd v txt hsp hwf hsz g3 (g4 ++ kwEndobj ++ rest) _ fuel (some (id, gen)) maxDepth hg3 h2
+  have hv := parseCtx_spells env hd v txt hsp hwf hsz g3 (g4 ++ kwEndobj ++ rest) _ fuel (some (id, gen)) maxDepth flags hg3 hfl h2
     (fun hbv => by simpa using gap_bnd hg4 (hb4 hbv) (kwEndobj ++ rest))
     (ahead_endobj g4 rest _ hg4 h3 hbnd) hfuel hdepth
   have he := nextExpect_regular g4 kwEndobj rest _ hg4 h3 (by decide) kw_endobj_regular hbnd
@@ -156,8 +156,8 @@ theorem parseCtx_stream (env : Env R) (hd : env.decrypt = none) (info : Dict R) 
     (hlen : LengthIs env info data.length) {buf : Buf} (hsz : buf.size ≤ 2147483647)
     (g rest : List UInt8) (pos fuel : Nat) (id : Nat × Nat) (depth : Nat) (hg : Gap g)
     (h : Suffix buf pos (g ++ txt ++ rest)) (hb : Bnd rest) (hfuel : 2 + needE info ≤ fuel)
-    (hdepth : 1 + vdepthE info ≤ depth) :
-    ∃ dataPos, parseCtx env buf fuel pos (some id) Flags.any depth =
+    (hdepth : 1 + vdepthE info ≤ depth) (flags : Nat) (hfl : flags &&& Flags.dict ≠ 0) :
+    ∃ dataPos, parseCtx env buf fuel pos (some id) flags depth =
         .ok (streamAt env info id dataPos data.length, pos + g.length + txt.length) ∧
       slice buf dataPos (dataPos + data.length) = data := by
   obtain ⟨g1, ents, g2, eol, g3, rfl, hg1, hents, hg2, heol, hg3⟩ := hsp
@@ -180,7 +180,7 @@ theorem parseCtx_stream (env : Env R) (hd : env.decrypt = none) (info : Dict R) 
   have hso := parseStreamObject_spec env hsz info g2 eol data g3 rest _ id hg2 heol hg3 hlen hs3 hb
   refine ⟨pos + g.length + 2 + g1.length + ents.length + g2.length + kwStream.length + eol.length, ?_, ?_⟩
   · have e1 : (([60, 60] : List UInt8) == [60, 60]) = true := by decide
-    have c1 : check Flags.any Flags.dict = .ok () := by decide
+    have c1 : check flags Flags.dict = .ok () := check_ok hfl
     have hd0 : (depth == 0) = false := by simp; omega
     simp only [parseCtx, parseInner, remainingStart_ok h.le, hn, Out.bind_ok, hsl, e1, if_true, c1, hd0,
       Bool.false_eq_true, if_false, hdict, List.nil_append, peek_ok hn2, hsl2, beq_self_eq_true, hso, streamAt]
@@ -200,8 +200,9 @@ theorem parseIndirectObject_stream (env : Env R) (hd : env.decrypt = none) (info
     (ha : NatTok a id) (hb : NatTok b gen) (hg1 : Gap g1) (hg1ne : g1 ≠ []) (hg2 : Gap g2) (hg2ne : g2 ≠ [])
     (hid : id ≤ 18446744073709551615) (hgen : gen ≤ 18446744073709551615) (hg3 : Gap g3) (hg4 : Gap g4) (hg4ne : g4 ≠ [])
     (h : Suffix buf pos (g0 ++ a ++ g1 ++ b ++ g2 ++ kwObj ++ g3 ++ txt ++ g4 ++ kwEndobj ++ rest))
-    (hbnd : Bnd rest) (hfuel : 2 + needE info ≤ fuel) (hdepth : 1 + vdepthE info ≤ maxDepth) :
-    ∃ dataPos, parseIndirectObject env buf fuel pos Flags.any =
+    (hbnd : Bnd rest) (hfuel : 2 + needE info ≤ fuel) (hdepth : 1 + vdepthE info ≤ maxDepth)
+    (flags : Nat) (hfl : flags &&& Flags.dict ≠ 0) :
+    ∃ dataPos, parseIndirectObject env buf fuel pos flags =
         .ok (((id, gen), streamAt env info (id, gen) dataPos data.length),
           pos + (g0 ++ a ++ g1 ++ b ++ g2 ++ kwObj ++ g3 ++ txt ++ g4 ++ kwEndobj).length) ∧
       slice buf dataPos (dataPos + data.length) = data := by
@@ -222,7 +223,7 @@ theorem parseIndirectObject_stream (env : Env R) (hd : env.decrypt = none) (info
     have := Suffix.drop (a := g3 ++ txt) (by simpa using h2)
     simpa [Nat.add_assoc] using this
   obtain ⟨dataPos, hv, hdata⟩ := parseCtx_stream env hd info data txt hsp hwf hnd hlen hsz g3 (g4 ++ kwEndobj ++ rest) _ fuel
-    (id, gen) maxDepth hg3 h2 (by simpa using gap_bnd hg4 hg4ne (kwEndobj ++ rest)) hfuel hdepth
+    (id, gen) maxDepth hg3 h2 (by simpa using gap_bnd hg4 hg4ne (kwEndobj ++ rest)) hfuel hdepth flags hfl
   have he := nextExpect_regular g4 kwEndobj rest _ hg4 h3 (by decide) kw_endobj_regular hbnd
   refine ⟨dataPos, ?_, hdata⟩
   simp only [parseIndirectObject, hhead, Out.bind_ok, hv, he]
